@@ -800,6 +800,23 @@ pub fn c18(thorough: bool, rng: &mut Rng, out: &mut Out) {
             out.fail(i, format!("C18 exchanges made while the thread unwinds from a panic: pacing missing: {}", trunc(&got)));
         }
     }
+    // the same pacing while OTHER buses of the process come and go on another thread (a second master being opened and
+    // closed, a pool of ports): whatever the library shares between bus objects must not cut a pause short
+    for rep in 0..3 {
+        let a = 3u16;
+        let lp = Message::ReportState(Address(a), State::PageLoadInProgress);
+        let q = Message::QueryState(Address(a));
+        let msgs = vec![sd(0, &[1u8; 16]), sd(16, &[2u8; 16]), sd(32, &[3u8; 16]), q.clone(), Message::Goodbye(Address(a))];
+        let tape = msg_wire(&lp);
+        let line = format!("serialmtc {} | d:{} |", msgs.iter().map(show_msg).collect::<Vec<_>>().join(" "), hex_of(&tape));
+        let i = out.case(line, true);
+        out.stat("pace.other-buses-created-and-dropped-concurrently");
+        let got = out.impls[i].clone();
+        let parts: Vec<&str> = got.split(" ; ").collect();
+        if parts.len() != 5 || !parts[0].contains(" G:30") || !parts[1].contains(" G:30") || !parts[2].contains(" G:30") || !parts[3].contains(" S:100") {
+            out.fail(i, format!("C18 exchanges made while other buses are created and dropped on another thread (run {}): pacing missing: {}", rep, trunc(&got)));
+        }
+    }
     // a port that is a little slow ALL the time (every write takes 15 ms, every reply 40 ms to start): the pauses are
     // minimum gaps, not a cadence — time the port itself took does not count towards them
     {
